@@ -19,23 +19,22 @@ def indices(s: slice, length: int) -> tuple[int, int | None, int]:
     return start, stop, step
 
 def offset_slice_indices_lsb0(key: slice, length: int) -> slice:
-    start, stop, step = indices(key, length)
-    if step is not None and step < 0:
-        if stop is None:
-            new_start = start + 1
-            new_stop = None
-        else:
-            first_element = start
-            last_element = start + ((stop + 1 - start) // step) * step
-            new_start = length - last_element
-            new_stop = length - first_element - 1
-    else:
-        first_element = start
-        # The last element will usually be stop - 1, but needs to be adjusted if step != 1.
-        last_element = start + ((stop - 1 - start) // step) * step
-        new_start = length - last_element - 1
-        new_stop = length - first_element
-    return slice(new_start, new_stop, key.step)
+    """Convert a slice given in lsb0 bit numbering to the msb0 slice (with the same step) that selects the same bits,
+    in the order that makes the result the mirror image of the msb0 operation."""
+    selected = range(*key.indices(length))
+    if len(selected) == 0:
+        if selected.step == 1:
+            # Nothing is selected, but for a simple slice the position still matters as an insertion point.
+            p = length - min(max(selected.start, 0), length)
+            return slice(p, p, key.step)
+        return slice(0, 0, key.step)
+    # msb0 positions of the last and first selected bits
+    first = length - 1 - selected[-1]
+    last = length - 1 - selected[0]
+    if selected.step > 0:
+        return slice(first, last + 1, key.step)
+    stop = last - 1
+    return slice(first, None if stop < 0 else stop, key.step)
 
 
 class BitStore:
